@@ -457,5 +457,5 @@ CLAIM = {
     "technique": "static analysis: def-use chain from option branch to attribute store to attribute load to call argument; guard/use "
                  "contradiction rule; modulo-own-length rule; who-may-call (pyplot state functions inside _adjust_axis = 0); truth-table comparison "
                  "of the tight-cropping condition; truthiness lint on zero-or-None metric attributes; ORDER rule on the event log of _adjust_axis "
-                 "(limits after the ticks of the same axis); option branches by value (c13.option_effects)",
+                 "(limits after the ticks of the same axis); option branches by value (c13.option_effects); C17.6 subscript chains from the parameters of _add_annotation to the position and to the text of each annotation must coincide (folded function, opaque format expressions parsed)",
 }
